@@ -461,8 +461,10 @@ SHIPPED = ["huawei_ce", "huawei_ne", "huawei_other", "arista", "nexus_other", "n
 
 BLOCK_ROWS = {
     "nexus": (["vrf member A", "vrf member B"], ["ip address 10.0.0.1/24", "ip address 10.0.0.2/24", "description x",
-                                                  "description y", "no ip redirects", "ipv6 address 2001:db8::1/64"]),
-    "catalyst": (["vrf forwarding A", "vrf forwarding B"], ["ip address 10.0.0.1 255.255.255.0", "description x", "description y"]),
+                                                  "description y", "no ip redirects", "ipv6 address 2001:db8::1/64",
+                                                  "channel-group 1 mode active", "lacp rate fast"]),
+    "catalyst": (["vrf forwarding A", "vrf forwarding B"], ["ip address 10.0.0.1 255.255.255.0", "description x", "description y",
+                                                             "channel-group 1 mode active"]),
     "cisco": (["vrf forwarding A", "vrf forwarding B"], ["ip address 10.0.0.1 255.255.255.0", "description x", "description y"]),
     "huawei": (["ip binding vpn-instance A", "ip binding vpn-instance B"], ["ip address 10.0.0.1 24", "description x", "description y"]),
     "arista": (["vrf A", "vrf B"], ["ip address 10.0.0.1/24", "description x", "description y"]),
@@ -621,6 +623,30 @@ def patch_witnesses(ctx, table: dict, shipped: list, outs_sh: list, keep_sh: lis
             replay={"case": cs[i], "impl": os_[i], "clause": "added_parent"}))
 
 
+KNOWN_LAG = "C17/no-spurious/port-channel-member-filter-drops-the-default-on-one-side"
+
+
+def lag_join_or_leave_only(c: dict, table: dict) -> bool:
+    """Is the no-spurious failure of this shipped-rulebook case confined to interface blocks that have a
+    `channel-group` row on exactly one side?  Decided by the SAME Coq predicate on the real outputs for the case
+    with exactly those blocks removed from both sides (the implementation is run again on it)."""
+    def cg(t):
+        return any(r.startswith("channel-group") for r in t)
+    old, new = c["old"], c["new"]
+    drop = [r for r in old if r.startswith("interface ") and r in new and cg(old[r]) != cg(new[r])]
+    if not drop:
+        return False
+    c2 = dict(c, old={k: v for k, v in old.items() if k not in drop}, new={k: v for k, v in new.items() if k not in drop})
+    keys_sh = ("kind", "model", "tags", "shipped", "gen", "old", "new")
+    o2 = core.run_impl("c17_runner.py", [{k: c2[k] for k in keys_sh if k in c2}])[0]
+    if "fatal" in o2 or "err" in o2:
+        return False
+    term = f"({cstr(shared_name(c2, o2, table))}, {coq_pipe(c2, o2, table)})"
+    r = core.run_case_files(ID, "string * c17pipe", IMPORTS, {"nospur": "fun x => P_nospur imatch (fun _ => true) (snd x)"},
+                            [term], per_file=5, tag="pipe_lag")
+    return not r["nospur"]
+
+
 def run_pipe(ctx, table: dict) -> dict:
     hist: dict = {}
     shipped, synth = pipe_cases(ctx, table, hist)
@@ -676,8 +702,19 @@ def run_pipe(ctx, table: dict) -> dict:
                 what="a side of the pipeline was not completed as the reference says (annet.gen._old_new_per_device or "
                      "merge_dicts(x, implicit.config(x, rules)))",
                 replay={"case": cs[i], "impl": os_[i], "correspondence": "P_pipe_completed"}, no_input=True))
-        for i in res["nospur"][:2]:
+        lag_seen = False
+        for i in res["nospur"][:6]:
             failed = True
+            if tag == "shipped-rulebook" and lag_join_or_leave_only(cs[i], table):
+                # the failure is confined to interface blocks that join or leave a port-channel: listed finding
+                if not lag_seen:
+                    lag_seen = True
+                    ctx.add_violation(core.Violation(
+                        signature=KNOWN_LAG,
+                        what="an interface joining / leaving a port-channel: the vendor interface diff_logic drops the rows "
+                             "not allowed on channel members - the implicit default among them - from one side only",
+                        replay={"case": cs[i], "impl": os_[i], "clause": "no_spurious"}))
+                continue
             ctx.add_violation(core.Violation(
                 signature=f"C17/no-spurious/{tag}",
                 what="a default row absent from both sides, whose pattern no row of either side matches, at a parent present "
